@@ -167,6 +167,29 @@ def _run_mixed(ctx, spec, rng):
     ctx.sample("O2:entropy-additive", dict(det, H_A=ha, H_B=hb, H_AB=hab))
 
 
+def _rounding_level_rejection(v, dims):
+    """Classifier only (never decides a verdict): follow the splits the library makes (last subsystem first, then the left factor) with the
+    library's own schmidt_decomposition and report (sigma_2, threshold) of the first split whose second singular value is above the library's
+    prod(dim)*spacing(sigma_1) threshold although it is at rounding level (<= 1e-13 sigma_1)."""
+    from toqito.state_ops import schmidt_decomposition
+
+    try:
+        vec, d = np.asarray(v).reshape(-1, 1), [int(t) for t in dims]
+        while len(d) >= 2:
+            split = [int(np.prod(d[:-1])), d[-1]] if len(d) > 2 else d
+            sv, u_mat, _ = schmidt_decomposition(vec, split, 2)
+            sv = np.asarray(sv, dtype=float).reshape(-1)
+            thr = float(np.prod(split) * np.spacing(sv[0]))
+            if sv[1] > thr:
+                return (float(sv[1]), thr) if sv[1] <= 1e-13 * sv[0] else None
+            vec, d = (u_mat[:, 0] * np.sqrt(sv[0])).reshape(-1, 1), d[:-1]
+            if len(d) < 2:
+                break
+    except Exception:  # noqa: BLE001
+        return None
+    return None
+
+
 def _run_prod(ctx, spec, rng):
     from toqito.state_props import is_product
 
@@ -216,8 +239,14 @@ def _run_prod(ctx, spec, rng):
     if res is None:
         return
     verdict = bool(res[0]) if isinstance(res, (tuple, list)) else bool(res)
-    ctx.check("O3:is_product", verdict == want, sig=(kind, form, tuple(dims), cplx), nt=True, mech=f"is_product:wrong-verdict[{form},{'product' if want else 'entangled'}]",
-              detail={"dims": dims, "form": form, "want": want, "got": verdict})
+    mech = f"is_product:wrong-verdict[{form},{'product' if want else 'entangled'}]"
+    det = {"dims": dims, "form": form, "want": want, "got": verdict}
+    if want and not verdict and form in ("col", "col3"):
+        noise = _rounding_level_rejection(np.asarray(x).reshape(-1), dims)
+        if noise is not None:
+            mech = "is_product:rejects-product-vector[rounding-level-sigma2-above-prod(dim)*eps-threshold]"
+            det["second_singular_value_seen_by_the_library"], det["library_threshold"] = noise
+    ctx.check("O3:is_product", verdict == want, sig=(kind, form, tuple(dims), cplx), nt=True, mech=mech, detail=det)
     ctx.sample("O3:is_product", {"dims": dims, "form": form, "want": want, "got": verdict})
     if want and verdict and isinstance(res, (tuple, list)) and len(res) > 1 and form in ("col", "col3"):
         try:
